@@ -1275,6 +1275,26 @@ def _do_mutate(sim, cl, i, op):
         g.graph["caller_note"] = "edited"
     cl.retired.add(j)
     _check_relatives(sim, cl, i, j)
+    # an edit of ONE atom / ONE bond must not show on any other atom or bond of the
+    # same graph (attribute dictionaries shared inside a result)
+    touched_node = n if how in ("node_attr", "node_attr_new", "node_attr_del") and nodes else None
+    touched_edge = frozenset((u, v)) if how == "edge_attr" and edges else None
+    snap = cl.snaps[j]
+    jb = model.base_op(cl.ops, j)
+    if snap is not None and (touched_node is not None or touched_edge is not None) and jb["op"] in ("canon", "permute"):
+        d = None
+        for (m, d0), (_, d1) in zip(snap[0], g.nodes(data=True)):
+            if m != touched_node and _strip(d0, (T.EXPLORED,)) != _strip(d1, (T.EXPLORED,)):
+                d = f"editing {'atom ' + str(touched_node) if touched_node is not None else 'a bond'} also changed atom {m}: {d0} -> {d1}"
+                break
+        if d is None:
+            for (a, b, d0), (_, _, d1) in zip(snap[1], g.edges(data=True)):
+                if frozenset((a, b)) != touched_edge and d0 != d1:
+                    d = f"editing {'atom ' + str(touched_node) if touched_node is not None else 'bond ' + str(sorted(touched_edge))} also changed bond {(a, b)}: {d0} -> {d1}"
+                    break
+        if d:
+            prop = "C12" if jb["op"] == "canon" else "C16"
+            sim.violation(prop, "result_parts_share_state", cl, i, jb["op"], cl.keys[j], d)
 
 
 # --------------------------------------------------------------------------
